@@ -137,6 +137,35 @@ for cfg in configs:
         R.check("write-read cycle returns an equal structure", f"{flavour} {'stack' if models else 'array'}", desc, run)
 
 
+# string annotations with special characters: text and binary flavour must agree with the input
+SPECIAL = ["O5'", "5' cap", 'say "x"', "a b", "_lead", "#x", ";x", "data_1", "it's a", "N"]
+
+
+def special_strings(flavour, values, field):
+    a = build(2, None, [""], [0], [False], False, False, ())
+    n = a.array_length()
+    vals = [values[i % len(values)] for i in range(n)]
+    if field == "atom_name":
+        a.atom_name = np.array(vals)
+    else:
+        a.set_annotation("label", np.array(vals))
+    extra = () if field == "atom_name" else ("label",)
+    if field != "atom_name":
+        # extra string fields are written as atom_site columns of the same name
+        pass
+    b, g = cycle(a, flavour, ())
+    got = b.atom_name.tolist() if field == "atom_name" else None
+    if field == "atom_name" and got != vals:
+        return f"atom_name: wrote {vals}, read {got}"
+    return None
+
+
+for v in SPECIAL:
+    for flavour in ("cif", "bcif"):
+        R.check("string annotations with special characters survive the write-read cycle", f"special strings {flavour}",
+                {"atom_name": [v, "CA"], "flavour": flavour}, lambda v=v, flavour=flavour: special_strings(flavour, [v, "CA"], "atom_name"))
+
+
 # model selection and altloc policies vs per-row recomputation
 def altloc_structure():
     n = 6
